@@ -508,3 +508,180 @@ func firstDiff(a, b []byte) int {
 	}
 	return len(b)
 }
+
+// TestVerifRelayUDP: upstreams whose transport offers no half-close (UDP).  The model (upCW = false) says: once the client has
+// finished sending, the pump closes the upstream sockets, the copies end, the handler returns and everything is closed; what
+// the upstreams received is exactly the client's stream.  Judged by oracle only (datagram timing makes the client side
+// schedule-dependent).
+func TestVerifRelayUDP(t *testing.T) {
+	out := vopen(t, "relayudp")
+	defer out.close()
+	ctx, cancel := caddy.NewContext(caddy.Context{Context: context.Background()})
+	defer cancel()
+	type udpUp struct {
+		pc    net.PacketConn
+		mu    sync.Mutex
+		got   []byte
+		reply [][]byte
+	}
+	var ups []*udpUp
+	var dial []string
+	for i := 0; i < 2; i++ {
+		pc, err := net.ListenPacket("udp", "127.0.0.1:0")
+		if err != nil {
+			t.Fatal(err)
+		}
+		defer pc.Close()
+		u := &udpUp{pc: pc}
+		ups = append(ups, u)
+		dial = append(dial, "udp/"+pc.LocalAddr().String())
+		go func() {
+			buf := make([]byte, 65536)
+			for {
+				n, addr, err := pc.ReadFrom(buf)
+				if err != nil {
+					return
+				}
+				u.mu.Lock()
+				first := len(u.got) == 0
+				u.got = append(u.got, buf[:n]...)
+				reply := u.reply
+				u.mu.Unlock()
+				if first {
+					for _, c := range reply {
+						_, _ = pc.WriteTo(c, addr)
+					}
+				}
+			}
+		}()
+	}
+	handlers := map[int]*Handler{}
+	for k := 1; k <= 2; k++ {
+		h := &Handler{Upstreams: UpstreamPool{&Upstream{Dial: dial[:k]}}}
+		if err := h.Provision(ctx); err != nil {
+			t.Fatal(err)
+		}
+		handlers[k] = h
+	}
+	cln, err := net.Listen("tcp", "127.0.0.1:0")
+	if err != nil {
+		t.Fatal(err)
+	}
+	defer cln.Close()
+	r := &vrng{vseed()*86028121 + 3}
+	n := vcount(20)
+	nfail := 0
+	fail := func(idx int, sig, desc string) { nfail++; out.fail(idx, sig, desc) }
+	for idx := 0; idx < n && nfail < 3; idx++ {
+		k := r.pick(1, 1, 2)
+		pre := mkRelayChunk(0, 200, r.next(), r.pick(0, 1, 50, 900))
+		var cchunks []relayChunk
+		for j := r.pick(1, 2, 3); j > 0; j-- {
+			cchunks = append(cchunks, mkRelayChunk(0, 200, r.next(), r.pick(1, 10, 300, 1200)))
+		}
+		sentC := append([]byte{}, pre.b...)
+		for _, c := range cchunks {
+			sentC = append(sentC, c.b...)
+		}
+		for i := 0; i < k; i++ {
+			ups[i].mu.Lock()
+			ups[i].got = nil
+			ups[i].reply = nil
+			for j := r.pick(0, 1, 2); j > 0; j-- {
+				ups[i].reply = append(ups[i].reply, mkRelayChunk(200+18*i, 18, r.next(), r.pick(1, 100, 1000)).b)
+			}
+			ups[i].mu.Unlock()
+		}
+		closeMode := r.intn(2) // 0: half-close, 1: full close by the client
+		fmt.Fprintf(out.cases, "relayudp k=%d pre=%d chunks=%d close=%d\n", k, len(pre.b), len(cchunks), closeMode)
+		fd0 := countFDs()
+		cc, err := net.Dial("tcp", cln.Addr().String())
+		if err != nil {
+			t.Fatal(err)
+		}
+		sc, err := cln.Accept()
+		if err != nil {
+			t.Fatal(err)
+		}
+		h := handlers[k]
+		cx := layer4.WrapConnection(sc, append(make([]byte, 0, len(pre.b)+16), pre.b...), zap.NewNop())
+		ret := make(chan error, 1)
+		go func() { ret <- h.Handle(cx, nil) }()
+		var clGot []byte
+		rd := make(chan struct{})
+		go func() {
+			defer close(rd)
+			buf := make([]byte, 65536)
+			for {
+				nn, err := cc.Read(buf)
+				clGot = append(clGot, buf[:nn]...)
+				if err != nil {
+					return
+				}
+			}
+		}()
+		for _, c := range cchunks {
+			time.Sleep(time.Duration(r.pick(0, 1, 3)) * time.Millisecond)
+			_, _ = cc.Write(c.b)
+		}
+		time.Sleep(30 * time.Millisecond) // let the replies of the datagram upstreams arrive
+		if closeMode == 0 {
+			_ = cc.(*net.TCPConn).CloseWrite()
+		} else {
+			_ = cc.Close()
+		}
+		returned := false
+		select {
+		case <-ret:
+			returned = true
+		case <-time.After(5 * time.Second):
+		}
+		_ = cx.Close()
+		select {
+		case <-rd:
+		case <-time.After(2 * time.Second):
+		}
+		cc.Close()
+		okAll := true
+		if !returned {
+			okAll = false
+			fail(idx, "handler-not-returned", fmt.Sprintf("with %d datagram upstream(s), Handle did not return within 5 s after the client finished (close mode %d)", k, closeMode))
+		} else {
+			leak := 0
+			if !settle(func() bool { leak = countFDs() - fd0; return leak <= 0 }) {
+				okAll = false
+				fail(idx, "upstream-conn-leaked", fmt.Sprintf("%d socket(s) still open after Handle returned (datagram upstreams)", leak))
+			}
+			for i, p := range h.Upstreams[0].peers {
+				if c := p.getNumConns(); c != 0 {
+					okAll = false
+					fail(idx, "upstream-conn-leaked", fmt.Sprintf("peer %d still counts %d open connection(s) after Handle returned", i, c))
+				}
+			}
+		}
+		for i := 0; i < k; i++ {
+			ups[i].mu.Lock()
+			got := append([]byte{}, ups[i].got...)
+			ups[i].mu.Unlock()
+			if !bytes.Equal(got, sentC) {
+				okAll = false
+				fail(idx, "upstream-stream", fmt.Sprintf("datagram upstream %d received %d bytes, the client sent %d (first difference at %d)", i, len(got), len(sentC), firstDiff(sentC, got)))
+			}
+		}
+		for _, b := range clGot {
+			if b < 200 || int(b) >= 200+18*k {
+				okAll = false
+				fail(idx, "client-stream", fmt.Sprintf("the client received byte %d that no upstream sent", b))
+				break
+			}
+		}
+		fmt.Fprintf(out.out, "ok=%v ret=%v\n", okAll, returned)
+		out.cases.Flush()
+		out.out.Flush()
+		out.orc.Flush()
+		if !returned {
+			break
+		}
+	}
+	out.stats(map[string]int{"histories": n})
+}
